@@ -683,7 +683,75 @@ Section ReplyObject.
     intros r e H. unfold get_esc in H. destruct (is245 (code_class r)) eqn:E; [|discriminate].
     destruct (r_esc r); inversion H; subst; split; reflexivity.
   Qed.
+
+  (* ---------- the setter chain: message_esc_pattern and esc_pattern agree ---------- *)
+  (* what message_esc_pattern captures as group(1) is accepted by esc_pattern, with the same pieces *)
+  Lemma esc_pattern_group1 : forall k subj det, is245 k = true -> dig13 subj = true -> dig13 det = true ->
+    Reply.match_esc_pattern udigit (k :: 46 :: subj ++ 46 :: det) = Some (k, subj, det).
+  Proof.
+    intros k subj det Hk Hs Hd. unfold Reply.match_esc_pattern. rewrite Hk. cbn [andb N.eqb Pos.eqb].
+    rewrite td_bwd; [|assumption|cbn; rewrite Hd46; reflexivity].
+    cbn [N.eqb Pos.eqb].
+    rewrite <- (app_nil_r det) at 1. rewrite td_bwd; [|assumption|reflexivity].
+    reflexivity.
+  Qed.
+
+  Lemma patterns_agree : forall v k subj det rest, match_esc v = Some (k, subj, det, rest) ->
+    Reply.match_esc_pattern udigit (k :: 46 :: subj ++ 46 :: det) = Some (k, subj, det).
+  Proof.
+    intros v k subj det rest H. apply me_fwd in H.
+    destruct H as [w [sp [_ [Hk [Hs [Hd _]]]]]]. apply esc_pattern_group1; assumption.
+  Qed.
+
+  (* the message setter never lets the ValueError of the ESC setter escape, and computes set_message *)
+  Lemma set_message_chk_total : forall r v,
+    Reply.set_message_chk udigit uspace r v = Some (set_message r v).
+  Proof.
+    intros r v. unfold Reply.set_message_chk, Reply.set_message, Reply.msg_esc_group1.
+    destruct v as [|c v']; [reflexivity|].
+    destruct (peel_allowed (r_code r)); [|reflexivity].
+    destruct (match_esc (c :: v')) as [[[[k subj] det] rest]|] eqn:E; [|reflexivity].
+    unfold Reply.esc_setter. rewrite (patterns_agree _ _ _ _ _ E). reflexivity.
+  Qed.
+
+  Lemma ctor_total : forall code v,
+    Reply.reply_ctor udigit uspace code v =
+    if Reply.ctor_code_ok udigit code then CtorOk (new_reply code v) else CtorBadCode.
+  Proof.
+    intros code v. unfold Reply.reply_ctor. destruct (Reply.ctor_code_ok udigit code); [|reflexivity].
+    cbn [Reply.esc_setter r_code r_msg]. rewrite set_message_chk_total. reflexivity.
+  Qed.
+
+  Lemma recv_chk_total : forall buf chunks,
+    Reply.reply_recv_chk udigit uspace buf chunks = Some (reply_recv udigit uspace buf chunks).
+  Proof.
+    intros buf chunks. unfold Reply.reply_recv_chk, reply_recv.
+    destruct (recv_reply buf chunks) as [c body b' ch'|b' ch'|]; try reflexivity.
+    destruct (utf8_dec body) as [t|]; [|reflexivity].
+    destruct (code_ok c); [|reflexivity].
+    rewrite set_message_chk_total. reflexivity.
+  Qed.
 End ReplyObject.
+
+(* Examples for the setter chain (ASCII classes): the hypothesis of patterns_agree is
+   satisfiable; a component of four digits is matched by NEITHER pattern, so such a
+   text is plain text for the constructor (were message_esc_pattern to accept it,
+   esc_pattern would refuse it and the constructor would raise). *)
+Definition adigit (c : N) : bool := (48 <=? c) && (c <=? 57).
+Definition aspace (c : N) : bool := (c =? 32) || ((9 <=? c) && (c <=? 13)).
+Example patterns_agree_hyp :   (* "5.7.1 x" *)
+  match_esc adigit aspace [53; 46; 55; 46; 49; 32; 120] = Some (53, [55], [49], [120]).
+Proof. vm_compute. reflexivity. Qed.
+Example four_digits_not_esc :  (* "2.1000.5 x" / "2.1000.5" *)
+  match_esc adigit aspace [50; 46; 49; 48; 48; 48; 46; 53; 32; 120] = None /\
+  match_esc_pattern adigit [50; 46; 49; 48; 48; 48; 46; 53] = None.
+Proof. vm_compute. split; reflexivity. Qed.
+Example four_digits_ctor :     (* Reply('250', '2.1000.5 x') keeps the text, shows '2.0.0 2.1000.5 x' *)
+  reply_ctor adigit aspace [50; 53; 48] [50; 46; 49; 48; 48; 48; 46; 53; 32; 120]
+  = CtorOk (mkReply [50; 53; 48] EscNone [50; 46; 49; 48; 48; 48; 46; 53; 32; 120]).
+Proof. vm_compute. reflexivity. Qed.
+Example ctor_bad_code : reply_ctor adigit aspace [54; 53; 48] [120] = CtorBadCode.
+Proof. vm_compute. reflexivity. Qed.
 
 (* ------------------------------------------------------------------ malformed input *)
 Fixpoint wf_reply_lines (c : bytes) (raws txts : list bytes) : Prop :=
